@@ -524,6 +524,7 @@ func runC15(c *Ctx) {
 	runFullReadAs(c, P)
 	runNoWrapAs(c, P)
 	runAllFragmentsAs(c, P)
+	runNilHolesAs(c, P, nil)
 
 	ent, err := p.entrySet()
 	if err != nil {
